@@ -4,7 +4,7 @@
 # Then probe our checks against it (try-patch on a scratch copy) and file it under /verif/seeded/<Cxx>-<k>/.
 set -u
 P="$1"; K="$2"; shift 2
-WT="/tmp/wt/$P"; SRC="/tmp/wt/$P-out/change$K"
+WTROOT="${WTROOT:-/tmp/wt}"; WT="$WTROOT/$P"; SRC="$WTROOT/$P-out/change$K"
 cd "$(dirname "$(readlink -f "$0")")/.." || exit 2
 [ -f "$SRC/patch.diff" ] || { echo "no patch at $SRC"; exit 2; }
 LOG="$(mktemp /tmp/confirm.XXXXXX)"
@@ -20,7 +20,7 @@ echo "clean_demo_rc=$CLEAN_RC patched_demo_rc=$PATCH_RC tests='$TESTS'"
 CONFIRMED=no
 if [ "$CLEAN_RC" = 0 ] && [ "$PATCH_RC" != 0 ] && echo "$TESTS" | grep -q "PASSED  \] 141" && ! echo "$TESTS" | grep -q FAILED; then CONFIRMED=yes; fi
 echo "confirmed=$CONFIRMED"
-DEST="seeded/$P-$K"
+DEST="seeded/$P-${SEED_TAG:-}$K"
 RESULTS=""
 if [ "$CONFIRMED" = yes ]; then
 	mkdir -p "$DEST"
@@ -36,7 +36,7 @@ if [ "$CONFIRMED" = yes ]; then
 	NOTES=$(head -c 1500 "$SRC/notes.txt" 2>/dev/null | python3 -c 'import json,sys; print(json.dumps(sys.stdin.read()))')
 	cat > "$DEST/meta.json" <<META
 {
- "id": "$P-$K",
+ "id": "$P-${SEED_TAG:-}$K",
  "breaks_property": "$P",
  "origin": "independent sub-agent given only the property text and a scratch worktree",
  "needs_to_manifest": $NOTES,
